@@ -127,14 +127,16 @@ fn one_push<const NB: usize>(mask: u16, fixed: u16, content: bool) {
     assert!(new_carry == ecarry, "lfn.push: carried surrogate != fragment's leading unpaired unit");
     // bytes of earlier pushes are untouched
     let p: usize = kani::any();
-    kani::assume(p >= free && p < NB);
-    assert!(storage[p] == before[p], "lfn.push: bytes of previously pushed fragments changed");
+    if p >= free && p < NB {
+        assert!(storage[p] == before[p], "lfn.push: bytes of previously pushed fragments changed");
+    }
     if elen <= free {
         assert!(new_free == free - elen, "lfn.push: consumed space != length of the UTF-8 encoding");
         if content {
             let q: usize = kani::any();
-            kani::assume(q < elen);
-            assert!(storage[new_free + q] == exp[q], "lfn.push: written bytes != UTF-8 of the lossy decoding of fragment ++ carried unit");
+            if q < elen {
+                assert!(storage[new_free + q] == exp[q], "lfn.push: written bytes != UTF-8 of the lossy decoding of fragment ++ carried unit");
+            }
         }
     }
     kani::cover!(elen == 0 && ecarry.is_some());
